@@ -25,9 +25,9 @@ def run(db, rep, tier):
             rep.ok('B.steal.flag')
         else:
             rep.fail('B.steal.flag', label, where, 'ArgNMovable only for operands bound from rvalues', detail, fn)
-    rep.floor('B.steal.flag', n, 20)
-    rep.floor('B.inv', data['paths'], 1500)
-    rep.floor('B.ops', len(data['ops']), 80)
+    rep.floor('B.steal.flag', n, 12)
+    rep.floor('B.inv', data['paths'], 1000)
+    rep.floor('B.ops', len(data['ops']), 60)
     rep.sample('B.inv', 'families: ' + ', '.join(sorted(data['ops'])[:12]) + ' ...')
     rep.sample('B.inv', 'e.g. operator=(SU_vector&&) from v=owned2,o=ext3 with the cache refusing the insert: invariant and accounting hold on exit')
     import fixtures
